@@ -96,6 +96,8 @@ NAMED = {
     "Inner": St(F("logLevel", P("string"), O(**{"def": "info"})), F("Port", P("int"))),
     "MyInt": P("int"), "MyU8": P("uint8"), "MyStr": P("string"), "MyF64": P("float64"), "MyBool": P("bool"),
     "Alias": P("int64"),
+    "Level": P("int"),                                        # implements encoding.TextUnmarshaler
+    "Endpoint": St(F("Host", P("string")), F("Port", P("int"))),   # *Endpoint implements json.Unmarshaler
 }
 NAMED["Nodes"] = Sl(Ptr(Nm("Node")))
 NAMED["NodeMap"] = Mp(Nm("Node"))
@@ -1141,7 +1143,10 @@ class ShapeGen:
         if r < 0.7:    # wide leaves inside
             return St(F("Timeout", P("dur")), F("Ratio", P("num"), O(opt=True)), F("Meta", Mp(P("any")), O(opt=True)),
                       F("Blob", P("bytes"), O(opt=True)), F("Kind", Nm("MyStr"), O(opt=True)))
-        if r < 0.78:
+        if r < 0.84:   # user code called while decoding: TextUnmarshaler scalar, json.Unmarshaler struct
+            return St(F("LogLevel", Nm("Level")), F("Upstream", Ptr(Nm("Endpoint")), O(opt=True)),
+                      F("Levels", Mp(Nm("Level")), O(opt=True)), F("Peers", Sl(Ptr(Nm("Endpoint"))), O(opt=True)))
+        if r < 0.9:
             return St(F("Sub", St(F("DeepKey", Nm("Alias")), F("W", Nm("MyF64"), O(opt=True)))),
                       F("On", Nm("MyBool"), O(opt=True)))
         return self.leaf_lexemes()
@@ -1217,6 +1222,10 @@ class ShapeGen:
 
     def value(self, t, in_any=False):
         rng = self.rng
+        if t.get("name") == "Level":
+            return rng.choice([ds("debug"), ds("info"), ds("error"), ds("nope"), di(2)])
+        if t.get("name") == "Endpoint" and rng.random() < 0.6:
+            return rng.choice([ds("h1:80"), ds("10.0.0.1:8080"), ds("no-port"), ds("h:x")])
         t = unname(t)
         k = t["k"]
         if k == "ptr":
